@@ -302,6 +302,12 @@ _ITER_CONSUMERS = {"builtins.any", "builtins.all", "builtins.sum", "builtins.tup
                    "math.prod"}
 
 
+def _iterated_copy(x):
+    while is_term(x) and x[0] == "call" and x[1] in (("glob", "builtins.list"), ("glob", "builtins.tuple")) and len(x[2]) == 1 and not x[3]:
+        x = x[2][0]
+    return x
+
+
 def _iterated(x):
     """The argument of a consumer that only iterates it: list(y)/tuple(y) -> y, [f(i) for ...] -> (f(i) for ...)."""
     while is_term(x):
@@ -777,7 +783,8 @@ def norm(t, _arith=True):  # noqa: C901, PLR0911, PLR0912
         t2 = identity_comp(t)
         if t2 is not t:
             return norm(t2)
-        gens = tuple((norm(tg), norm(_strip_keys(it)), tuple(norm(c) for c in conds)) for tg, it, conds in t[3])
+        # what a generator iterates over: X.keys() -> X, list(X)/tuple(X) -> X (a copy that is only iterated)
+        gens = tuple((norm(tg), norm(_strip_keys(_iterated_copy(_strip_keys(it)))), tuple(norm(c) for c in conds)) for tg, it, conds in t[3])
         elt = (norm(t[2][0]), norm(t[2][1])) if t[1] == "dict" else norm(t[2])
         return ("comp", t[1], elt, gens)
     if tag == "cmp" and len(t[1]) == 1 and t[1][0] in ("in", "not in"):
